@@ -234,6 +234,73 @@ def concrete_check(spec, vals):
     return {"text": desc, "values": vals, "what": bad[0], "observed": "; ".join(bad[:4]) + " ; edges %r" % sorted(G.edges()), "expected": "reachability = chains of successive sharing"}
 
 
+# ----------------------------------------------------------------------------- end to end from scripts (concrete structure)
+SCRIPTS = [
+    "MeasureX | 12\nDgate(0.5) | 2\nSgate(q12) | 0\n",
+    "MeasureX | 0\nDgate(q0) | 1\nVac | 0\n",
+    "MeasureX | 10\nMeasureP | 2\nDgate(q2 - q10, k=q10*2) | 1\nVac | 10\nVac | 2\n",
+    "MeasureX | 0\nDgate(q0, 2*q0) | 1\nMeasureHomodyne(q0, select=q0/2) | 1\nVac | 0\n",
+    "Vac | 3\nBSgate(0.5) | [3, 4]\nMeasureX | 4\nRgate(phi=q4) | 5\nVac | [5, 3]\n",
+    "MeasureX | 103\nMeasureX | 7\nZgate(q7*q103) | 0\nZgate(q103) | 7\nXgate(q7) | 103\n",
+    "for int i in 0:3\n    MeasureX | i\nDgate(q0+q1+q2) | 3\nVac | 1\n",
+]
+
+
+def script_case(i):
+    """load the script natively, build the graph, compare reachability with the relation read off the script text by the
+    reference interpreter (modes and the registers written in each operation's arguments)"""
+    import blackbird
+    import blackbird.auxiliary as aux
+    import networkx as nx
+    from blackbird.utils import to_DiGraph
+    from ..atnsmt import lang as langmod
+    from ..ref import interp as RI
+    from ..pysym import skel
+    text = "name c16\nversion 1.0\n\n" + SCRIPTS[i]
+    lg = langmod.Lang()
+    lv = skel.Leaves(values=[])
+    rp = RI.Interp(lg.real_tokens_pos(text), T.PyAlg, lv.leaf, False, params=None).run()
+    per_op = []
+    for o in rp.operations:
+        wires = list(o["modes"])
+        for a in list(o["args"]) + list(o["kwargs"].values()):
+            if isinstance(a, RI.Sym):
+                wires += list(a.regs)
+        per_op.append(wires)
+    aux._VAR.clear()
+    aux._PARAMS.clear()
+    prog = blackbird.loads(text)
+    G = to_DiGraph(prog)
+    n = len(per_op)
+    bad = check_graph(G, prog, n)
+    R = ref_reach(per_op, lambda a, b: a == b, all, any, False)
+    for (a, b), r in R.items():
+        if nx.has_path(G, a, b) != bool(r):
+            bad.append("operation %d %s reachable from %d, the script says: %s" % (b, "is" if nx.has_path(G, a, b) else "is not", a, bool(r)))
+    if not bad:
+        return None
+    return {"text": text, "values": [i], "what": bad[0], "observed": "; ".join(bad[:4]) + " ; edges %r" % sorted(G.edges()), "expected": "reachability = chains of successive sharing of modes / written registers"}
+
+
+def run_script(i):
+    out = {"spec": ("script", i), "result": "holds", "paths": 1, "stats": None, "funcs": [], "reach": 1, "validated": 1, "text": "script:\n" + SCRIPTS[i], "name": "script %d" % i}
+    r = script_case(i)
+    if r:
+        r["symbolic_what"] = r["what"]
+        out.update(result="violation", cex=r)
+    return out
+
+
+REPLAY_SCRIPT = '''#!/usr/bin/env python
+import sys; sys.path.insert(0, %(root)r)
+from bbverif.checks import c16
+r = c16.script_case(%(i)r)
+if r is None:
+    print("property holds"); sys.exit(0)
+print(r["text"]); print("observed:", r["observed"]); print("expected:", r["expected"]); sys.exit(1)
+'''
+
+
 REPLAY = '''#!/usr/bin/env python
 # C16 replay: builds the concrete program, calls the real to_DiGraph, compares reachability with the reference relation.
 import sys; sys.path.insert(0, %(root)r)
@@ -255,11 +322,13 @@ def main():
         "proxies have a constant hash, so every set/dict operation on wires compares by equality (over-approximates every hash order)",
         "networkx is trusted (DiGraph, has_path, is_directed_acyclic_graph)",
         "programs are assembled through the API (operation dicts), register lists of transforms are set to symbolic values",
+        "a few loaded scripts (multi-digit registers, one register in several arguments, loops) are concrete end-to-end cases: wires are read off the script text by the reference interpreter",
     ]
     specs = gen_specs(t, common.seed())
-    results = U.run_parallel(run_spec, specs)
+    results = U.run_parallel(run_spec, specs) + [run_script(i) for i in range(len(SCRIPTS))]
     U.collect(rep, results, key_fn=_script.default_key,
-              replay_fn=lambda r: REPLAY % {"root": common.ROOT, "spec": r["spec"], "vals": r["cex"]["values"]},
+              replay_fn=lambda r: (REPLAY_SCRIPT % {"root": common.ROOT, "i": r["spec"][1]}) if r["spec"][0] == "script" else
+              REPLAY % {"root": common.ROOT, "spec": r["spec"], "vals": r["cex"]["values"]},
               sample_fn=lambda r: {"program": r["text"], "paths": r["paths"]})
     return rep.finish()
 
